@@ -187,6 +187,10 @@ def execute(prop, tier, seed, workers=None, replay=None, limit=None):
             except Exception as exc:  # noqa
                 r1, r2 = [("rerun_failed", str(exc)[:200])], []
             repro = (sig in r1) and (sig in r2)
+            if not repro and r1 and sorted(r1) == sorted(r2) and not any(c in ("timeout", "rerun_failed") for c, _ in r1):
+                # the case fails deterministically in a fresh process, only under another signature (e.g. a key that
+                # depends on the shard it was found in): that is a violation, not nondeterminism
+                repro = True
         else:
             repro = True
         path = os.path.join(OUT, "replays", prop, f"{tier}_{k:02d}.json")
